@@ -63,8 +63,13 @@ def default_cfg(**kw):
 
 
 # ============================================================================================ recorder
+class RunawayLoop(RuntimeError):
+    """the training function is still starting generations long after any budget could have been met"""
+
+
 class Rec:
     def __init__(self):
+        self.gen_cap = 10 ** 9
         self.cur = None            # id of the agent that called get_action last (outside test)
         self.in_test = 0
         self.keep = []             # every agent ever seen (keeps ids unique)
@@ -116,6 +121,8 @@ class Rec:
         self.gend, self.ntest, self.learn = {}, {}, {}
         self.unattributed = 0
         self.phase = "rollout"
+        if sum(1 for x in self.ev if x["op"] == "gen") > self.gen_cap:
+            raise RunawayLoop(f"more than {self.gen_cap} generations for max_steps={self.max_steps}")
 
     # ---- hooks
     def on_get_action(self, a):
@@ -448,6 +455,9 @@ def run(cfg):
     loop, algo, mem = cfg["loop"], cfg["algo"], cfg["mem"]
     REC = rec = Rec()
     rec.eval_loop = cfg["eval_loop"]
+    rec.max_steps = cfg["max_steps"]
+    # every generation adds at least one step to every agent's counter; far beyond that the loop is not going to stop
+    rec.gen_cap = 2 * cfg["max_steps"] // max(1, min(cfg["evo_steps"], cfg.get("episode_steps") or cfg["evo_steps"])) + 8
     zoo.seed_all(cfg["seed"])
     tmp = tempfile.mkdtemp(prefix="c20-")
     env = None
